@@ -1708,11 +1708,11 @@ impl SubRule {
                                             }
                                         }
                                         ParseElement::Matrix(mods, var) => {
+                                            // as for a matrix outside a set: leave the cursor on the last copy of a long segment
+                                            let run_len = res_word.seg_length_at(sp);
                                             let lc = self.apply_seg_mods(&mut res_word, sp, mods, var, set_output[i].position)?;
                                             total_len_change[sp.syll_index] += lc;
-                                            if lc > 0 {
-                                                last_pos.seg_index += lc.unsigned_abs() as usize;
-                                            }
+                                            last_pos.seg_index = (sp.seg_index as isize + run_len as isize - 1 + lc as isize).max(sp.seg_index as isize) as usize;
                                             if self.input.len() == self.output.len() {
                                                 if state_index < self.input.len() -1 {
                                                     last_pos.seg_index +=1;
